@@ -54,19 +54,19 @@ Qed.
 (* actions of the tensor-writing phase *)
 Definition wr (a : act) : bool :=
   match a with
-  | ACallback _ _ | ASeek _ | AWrite _ | AWriteBuf | AEvalRaise | ATofileOpen _ | ARead _ _ _ | ACheckFull _ => true
+  | ACallback _ _ | ASeek _ | AWrite _ | AWriteBuf | AEvalRaise _ | ATofileOpen _ | ARead _ _ _ | ACheckFull _ => true
   | _ => false
   end.
-Lemma multi_wr chunks : forall ra, forallb wr (multi_acts chunks ra) = true.
+Lemma multi_wr chunks e : forall ra, forallb wr (multi_acts chunks ra e) = true.
 Proof. induction chunks as [|ch r IH]; intros [[|j]|]; simpl; try reflexivity; apply IH. Qed.
 Lemma tofile_wr tens c sp : forallb wr (tofile_acts tens c sp) = true.
 Proof.
-  destruct sp as [d|h| |chunks ra]; simpl; try reflexivity; [|apply multi_wr].
+  destruct sp as [d|h|e|chunks ra e]; simpl; try reflexivity; [|apply multi_wr].
   rewrite forallb_app. simpl. rewrite andb_true_r.
   induction (chunk_plan _ 0 _ c) as [|x r IH]; simpl; [reflexivity|exact IH].
 Qed.
 Lemma cb_wr cb i : forallb wr (cb_acts cb i) = true.
-Proof. destruct cb as [[j|]|]; reflexivity. Qed.
+Proof. destruct cb as [[[j e]|]|]; reflexivity. Qed.
 Lemma tensors_wr tens c cb l : forall i, forallb wr (tensors_acts tens c cb i l) = true.
 Proof.
   induction l as [|[off sp] r IH]; intros i; simpl; [reflexivity|].
